@@ -116,7 +116,7 @@ type context struct {
 
 	handlers []Handler // The list of handlers to be executed.
 	action   Handler   // The last action handler to be executed.
-	index    int       // The index of the current handler that is being executed.
+	index    int       // The index of the next handler to be started.
 
 	responseWriter ResponseWriter // The http.ResponseWriter wrapper for the coming request.
 	request        *Request       // The http.Request wrapper for the coming request.
@@ -157,7 +157,6 @@ func (c *context) URLPath(name string, pairs ...string) string {
 }
 
 func (c *context) Next() {
-	c.index++
 	c.run()
 }
 
@@ -196,24 +195,27 @@ func (c *context) run() {
 		default:
 		}
 
+		// Claim the slot before invoking it, so that a handler calling Next() any
+		// number of times always resumes with the first handler not yet started.
+		index := c.index
+		c.index++
+
 		var h Handler
-		if c.index == len(c.handlers) {
+		if index == len(c.handlers) {
 			h = c.action
 		} else {
-			h = c.handlers[c.index]
+			h = c.handlers[index]
 		}
 
 		if h == nil {
-			c.index++
 			return
 		}
 
 		vals, err := c.Invoke(h)
 		if err != nil {
 			panic(fmt.Sprintf("unable to invoke the %s handler [%s:%T]: %v",
-				ordinalize(c.index), runtime.FuncForPC(reflect.ValueOf(h).Pointer()).Name(), h, err))
+				ordinalize(index), runtime.FuncForPC(reflect.ValueOf(h).Pointer()).Name(), h, err))
 		}
-		c.index++
 
 		// If the handler returned something, write it to the response.
 		if len(vals) > 0 {
